@@ -2,39 +2,45 @@
 (***************************************************************************)
 (* kaira.models.generic.BranchingModel as a state machine: an insertion-    *)
 (* ordered collection of named branches (name -> condition value), an       *)
-(* optional default, and Run selecting the first branch whose condition     *)
-(* holds.  Removing a name and adding it again moves it to the end (Python  *)
+(* optional default, and Run(x) selecting the first branch whose condition  *)
+(* holds on the input x (a condition is the set of inputs it accepts; the   *)
+(* selection depends on the current input only, not on earlier runs).  Removing a name and adding it again moves it to the end (Python  *)
 (* dict semantics); adding an existing name is an error and changes nothing.*)
 (***************************************************************************)
 EXTENDS Naturals, Sequences, FiniteSets, TLC
-CONSTANTS Names, MaxLen, Export
+CONSTANTS Names, Inputs, MaxLen, Export
 VARIABLES order,     \* sequence of branch names in insertion order
-          cond,      \* name -> BOOLEAN (the value its condition returns)
+          cond,      \* name -> SUBSET Inputs (the inputs on which its condition returns true)
           hasdef, hist
 vars == <<order, cond, hasdef, hist>>
 Range(s) == { s[i] : i \in DOMAIN s }
-Init == order = <<>> /\ cond = [n \in Names |-> FALSE] /\ hasdef = FALSE /\ hist = <<>>
+Init == order = <<>> /\ cond = [n \in Names |-> {}] /\ hasdef = FALSE /\ hist = <<>>
 RemoveName(s, n) == LET idx == { i \in DOMAIN s : s[i] # n } IN
                     [j \in 1..Cardinality(idx) |-> s[CHOOSE i \in idx : Cardinality({ k \in idx : k <= i }) = j]]
-Selected == IF \E i \in DOMAIN order : cond[order[i]]
-            THEN order[CHOOSE i \in DOMAIN order : cond[order[i]] /\ \A j \in 1..(i - 1) : ~cond[order[j]]]
-            ELSE IF hasdef THEN "default" ELSE "error"
+Selected(x) == IF \E i \in DOMAIN order : x \in cond[order[i]]
+               THEN order[CHOOSE i \in DOMAIN order : x \in cond[order[i]] /\ \A j \in 1..(i - 1) : x \notin cond[order[j]]]
+               ELSE IF hasdef THEN "default" ELSE "error"
 Add(n, c) == /\ IF n \in Range(order) THEN UNCHANGED <<order, cond>>
                 ELSE order' = Append(order, n) /\ cond' = [cond EXCEPT ![n] = c]
              /\ UNCHANGED hasdef
-             /\ hist' = Append(hist, [op |-> "add", n |-> n, c |-> c, raised |-> (n \in Range(order)), sel |-> ""])
+             /\ hist' = Append(hist, [op |-> "add", n |-> n, c |-> c, x |-> 0, raised |-> (n \in Range(order)), sel |-> ""])
 Remove(n) == /\ IF n \in Range(order) THEN order' = RemoveName(order, n) ELSE UNCHANGED order
              /\ UNCHANGED <<cond, hasdef>>
-             /\ hist' = Append(hist, [op |-> "remove", n |-> n, c |-> FALSE, raised |-> (n \notin Range(order)), sel |-> ""])
-SetDefault == hasdef' = TRUE /\ UNCHANGED <<order, cond>> /\ hist' = Append(hist, [op |-> "default", n |-> "", c |-> FALSE, raised |-> FALSE, sel |-> ""])
-Run == UNCHANGED <<order, cond, hasdef>> /\ hist' = Append(hist, [op |-> "run", n |-> "", c |-> FALSE, raised |-> (Selected = "error"), sel |-> Selected])
+             /\ hist' = Append(hist, [op |-> "remove", n |-> n, c |-> {}, x |-> 0, raised |-> (n \notin Range(order)), sel |-> ""])
+SetDefault == hasdef' = TRUE /\ UNCHANGED <<order, cond>> /\ hist' = Append(hist, [op |-> "default", n |-> "", c |-> {}, x |-> 0, raised |-> FALSE, sel |-> ""])
+Run(x) == UNCHANGED <<order, cond, hasdef>> /\ hist' = Append(hist, [op |-> "run", n |-> "", c |-> {}, x |-> x, raised |-> (Selected(x) = "error"), sel |-> Selected(x)])
 Next == /\ Len(hist) < MaxLen
-        /\ \/ \E n \in Names, c \in BOOLEAN : Add(n, c)
+        /\ \/ \E n \in Names, c \in SUBSET Inputs : Add(n, c)
            \/ \E n \in Names : Remove(n)
            \/ SetDefault
-           \/ Run
+           \/ \E x \in Inputs : Run(x)
 Spec == Init /\ [][Next]_vars
 NoDuplicates == \A i, j \in DOMAIN order : i # j => order[i] # order[j]
-SelectedIsFirstTrue == Selected \in Range(order) => (cond[Selected] /\ \A i \in DOMAIN order : (order[i] = Selected) => \A j \in 1..(i - 1) : ~cond[order[j]])
-ExportInv == (Export /\ Len(hist) = MaxLen /\ hist[MaxLen].op = "run") => PrintT(<<"BHIST", [i \in 1..Len(hist) |-> <<hist[i].op, hist[i].n, hist[i].c, hist[i].raised, hist[i].sel>>]>>)
+SelectedIsFirstTrue == \A x \in Inputs : Selected(x) \in Range(order) =>
+    (x \in cond[Selected(x)] /\ \A i \in DOMAIN order : (order[i] = Selected(x)) => \A j \in 1..(i - 1) : x \notin cond[order[j]])
+\* the selection is a function of the current branches and the current input: two runs with the same input and no add / remove / default
+\* between them select the same branch, whatever was run in between
+SelectionHasNoMemory == \A i, j \in DOMAIN hist : (i < j /\ hist[i].op = "run" /\ hist[j].op = "run" /\ hist[i].x = hist[j].x
+                                                    /\ \A k \in (i + 1)..(j - 1) : hist[k].op = "run") => hist[i].sel = hist[j].sel
+ExportInv == (Export /\ Len(hist) = MaxLen /\ hist[MaxLen].op = "run") => PrintT(<<"BHIST", [i \in 1..Len(hist) |-> <<hist[i].op, hist[i].n, hist[i].c, hist[i].raised, hist[i].sel, hist[i].x>>]>>)
 =============================================================================
